@@ -17,11 +17,12 @@ THEOREMS = ['PlotPrep.c17_series_count_order_labels', 'PlotPrep.c17_points', 'Pl
             'PlotPrep.c17_src_legend_rule', 'PlotPrep.c17_src_zvals_refines', 'PlotPrep.c17_src_zvals_order',
             'PlotPrep.c17_src_zlabels_order', 'PlotPrep.c17_src_zlabels_given', 'PlotPrep.c17_src_labels_refine',
             'PlotPrep.c17_src_loops_take_one_label', 'PlotPrep.c17_src_colour_limits', 'PlotPrep.c17_src_colour_limits_refine',
+            'PlotPrep.c17_src_rowcol_refines',
             # the translated generators on the model's dataset operations = the model (XyzProofs/Refine/PlotSrc.lean)
             'PlotPrep.genxy_coord_refines', 'PlotPrep.genxy_single_refines', 'PlotPrep.genxy_var_refines',
             'PlotPrep.genxy_var_errors', 'PlotPrep.genx_refines', 'PlotPrep.c17_src_xy_refines']
 ANCHORS = ['maskIsBothFinite', 'maskArrays', 'vminDefaulted', 'vmaxDefaulted', 'autoLegend',
-           'plZVals', 'plZLabels', 'plLegend', 'plGenXY', 'plGenX', 'plLoopNexts', 'plColorNorm']
+           'plZVals', 'plZLabels', 'plLegend', 'plGenXY', 'plGenX', 'plLoopNexts', 'plColorNorm', 'plRowCol']
 RULE = ("each case = (explicit dataset: 1-4 dims of size 1-5 (up to 13 series in a boundary slice), numeric/str "
         "coordinates in arbitrary order, variables with shuffled dimension order, cells = distinct dyadic floats / NaN / "
         "+-inf incl. all-NaN series; a call of lineplot / scatter / histogram / heatmap or their auto_* forms with z or "
